@@ -448,5 +448,9 @@ func ReplayOps(sys System, names []string, panicClause string) ([]report.Violati
 			return nil, fmt.Errorf("op %q not enabled", n)
 		}
 	}
+	// violations found by the per-state check (e.g. quiescence closure) belong to the last state
+	if sc, ok := sys.(StateChecker); ok {
+		last = append(last, sc.CheckState(inst)...)
+	}
 	return last, nil
 }
